@@ -402,7 +402,13 @@ def method_rule_jobs(rng, tier):
                 ("channel-end-wrong-type", "actor", attr("interact"), impl([rng.choice(["pub fn tgt(&self, inter_send: Vec<u8>) {}", "pub fn tgt(&self, inter_recv: Option<u8>) {}", "pub fn tgt(&self, inter_send: oneshot::Receiver<u8>) {}"])]), "DIAG", False),
             ]
             if lib == "std":
-                jobs += [("async-without-runtime", "actor", "", impl(["pub async fn tgt(&self, n: u8) {}"]), "DIAG", False)]
+                # every shape of a messaging method: the rule is about the method being `async`, not about how its call is packed
+                for shape in ("pub async fn tgt(&self, n: u8) {}", "pub async fn tgt(&mut self) -> u8 { 0 }",
+                              "pub async fn tgt<T: Into<u8> + Send + 'static>(&mut self, v: T) {}", "pub async fn tgt<T: Into<u8> + Send + 'static>(&self, v: T) -> u8 { 0 }",
+                              "pub async fn tgt<const N: usize>(&self, v: [u8; N]) {}"):
+                    jobs += [("async-without-runtime", "actor", "", impl([shape]), "DIAG", False)]
+                # ... also when a non-async method of the same kind stands next to it
+                jobs += [("async-without-runtime", "actor", "", impl(["pub fn other<T: Into<u8> + Send + 'static>(&mut self, v: T) {}", "pub async fn tgt<T: Into<u8> + Send + 'static>(&mut self, v: T) {}"]), "DIAG", False)]
             else:
                 jobs += [("async-with-runtime", "actor", attr(), impl(["pub async fn tgt(&self, n: u8) {}"]), "TOKENS", False)]
             if lib != "smol":
